@@ -6,6 +6,9 @@ use crate::core::{
     run_generated,
     run_listed,
     run_one,
+    shrink_failure,
+    Fail,
+    Failure,
     KnownFinding,
     Outcome,
     PartResult,
@@ -17,8 +20,15 @@ pub trait DynPart: Sync {
     fn part(&self) -> &'static str;
     fn run(&self, cfg: &RunCfg, known: &[KnownFinding]) -> PartResult;
     fn replay(&self, choices: &[u64]) -> (Outcome, Value);
+    /// run one case without describing it (hot path of the coverage-guided engine)
+    fn run_choices(&self, choices: &[u64]) -> Outcome;
     /// decode a case without running it
     fn describe(&self, choices: &[u64]) -> Value;
+    fn id(&self) -> &'static str;
+    fn width(&self) -> usize;
+    fn rule(&self) -> &'static str;
+    /// shrink a failing case found by another engine (coverage-guided fuzzing) with the generic shrinker
+    fn shrink_failure(&self, choices: Vec<u64>, f: Fail) -> Failure;
 }
 
 pub enum Mode {
@@ -80,9 +90,29 @@ impl<P: Prop> DynPart for Gen<P> {
         run_one(&self.prop, choices)
     }
 
+    fn run_choices(&self, choices: &[u64]) -> Outcome {
+        crate::core::run_outcome(&self.prop, choices)
+    }
+
     fn describe(&self, choices: &[u64]) -> Value {
         let mut src = crate::core::Src::new(choices);
         let case = self.prop.gen(&mut src);
         self.prop.describe(&case)
+    }
+
+    fn id(&self) -> &'static str {
+        self.prop.id()
+    }
+
+    fn width(&self) -> usize {
+        self.prop.width()
+    }
+
+    fn rule(&self) -> &'static str {
+        self.prop.rule()
+    }
+
+    fn shrink_failure(&self, choices: Vec<u64>, f: Fail) -> Failure {
+        shrink_failure(&self.prop, choices, f)
     }
 }
